@@ -254,9 +254,20 @@ def real_ldr_seq(r):
     y = m.ldr(size)
     calls = []; results = []
     used = False; after_use_ok = False
+    foreign = bool(r.random() < 0.4)
+    if foreign:
+        # a set that needs auxiliary columns in the shared support model is formulated BEFORE the dependencies are declared:
+        # the declared (entry, component) pairs must not shift
+        import rsome as rso
+        _ = (m.dvar() <= 1 + z.sum()).forall(rso.norm(z, 1) <= 1.5, rso.norm(z, 'inf') <= 1)
     for _ in range(int(r.integers(1, 5))):
         if r.random() < 0.12 and not used:
-            _ = y.to_affine() if r.random() < 0.5 else (y[0] + 1)     # use the rule
+            try:
+                _ = y.to_affine() if r.random() < 0.5 else (y[0] + 1)     # use the rule
+            except Exception as e:
+                results.append('use-raises:' + type(e).__name__)         # never equal to the model's reply
+                calls.append({"use": True})
+                break
             used = True
             continue
         di = sorted(set(int(v) for v in r.choice(size, int(r.integers(1, size + 1)), replace=False)))
@@ -281,10 +292,10 @@ def real_ldr_seq(r):
         calls_model = calls; results_cmp = results; extra = None
     mask = np.zeros((size, nz), int) if y.depend is None else np.asarray(y.depend)
     code = {"results": results_cmp, "mask": mask.tolist()}
-    case = {"size": size, "nz": nz, "calls": calls, "used_before_last": used, "last_error": extra}
+    case = {"size": size, "nz": nz, "calls": calls, "used_before_last": used, "last_error": extra, "norm_set_formulated_first": foreign}
     if after_use_ok:
         code["results"] = results_cmp + ['accepted-after-use']      # never equal to the model's reply
-    rq = {"op": "aff_seq", "size": size, "nrand": nz, "is_int": False, "calls": [{"dec": c["dec"], "rand": c["rand"]} for c in calls_model]}
+    rq = {"op": "aff_seq", "size": size, "nrand": nz, "is_int": False, "calls": [{"dec": c["dec"], "rand": c["rand"]} for c in calls_model if "dec" in c]}
     return rq, code, case
 
 
@@ -295,22 +306,29 @@ def search_one(ctx, r):
     ctx.search_cases += 1
     m = ro.Model()
     nz = int(r.integers(2, 4))
+    import rsome as rso
     z = m.rvar(nz); y = m.ldr(2); x = m.dvar()
     mask = r.random((2, nz)) < 0.5
+    set_first = bool(r.random() < 0.5)          # build order: the (norm) set before or after the adapt() calls
+    if set_first:
+        m.minmax(x, z >= -1, z <= 1, rso.norm(z, 1) <= nz)
     for i in range(2):
         for j in range(nz):
             if mask[i, j]:
                 y[i].adapt(z[j])
     w = r.choice([1.0, 2.0, -1.0], nz)
-    m.minmax(x, z >= -1, z <= 1)
-    m.st(y[0] + y[1] >= w @ z - x, y >= -3, y <= 3)
+    if not set_first:
+        m.minmax(x, z >= -1, z <= 1, rso.norm(z, 1) <= nz)
     try:
+        m.st(y[0] + y[1] >= w @ z - x, y >= -3, y <= 3)
         with C.quiet():
             m.solve(display=False)
         m.get()
-    except Exception:
+    except RuntimeError:
         ctx.count('search:not-optimal'); return
-    case = {"mask": mask.tolist(), "w": w.tolist()}
+    except Exception as ex:
+        ctx.hit('ldr-model-raises:' + type(ex).__name__, {"error": str(ex)[:200]}, {"mask": mask.tolist(), "w": w.tolist(), "set_first": set_first}); return
+    case = {"mask": mask.tolist(), "w": w.tolist(), "set_first": set_first}
     if mask.any():
         coef = np.array(y.get(z), dtype=float)
         if np.any(~np.isnan(coef[~mask])) and np.any(np.abs(np.nan_to_num(coef[~mask])) > 1e-9):
